@@ -35,6 +35,8 @@ FORMS = [
     ("only_rename", "use a, only: lt => t, s", True, [("lt", "t"), ("s", "s")]),
     ("two_uses", "use a, only: t\n  use a, only: s", True, [("t", "t"), ("s", "s")]),
     ("only_hidden", "use a, only: t, hid", True, [("t", "t")]),
+    ("rename_case", "use a, Lt => t, LS => S", False, [("lt", "t"), ("ls", "s")]),
+    ("only_rename_case", "use a, only: Lt => T, V", True, [("lt", "t"), ("v", "v")]),
     ("only_empty", "use a, only:", True, []),
     ("only_empty_blank", "use a, only :  ", True, []),
 ]
@@ -207,7 +209,43 @@ def use_hides_host():
     return bad
 
 
+SHADOW = {
+    "src/mpi.f90": "module mpi\n  !! a serial stand-in for the MPI module\n  implicit none\n  integer, parameter :: mpi_comm_world = 0\n  type :: mpi_status\n    integer :: code\n  end type mpi_status\ncontains\n"
+                   "  subroutine mpi_init(ierr)\n    integer, intent(out) :: ierr\n    ierr = 0\n  end subroutine mpi_init\nend module mpi\n",
+    "src/extra.f90": "module vendor_lib\n  implicit none\n  type :: handle\n    integer :: h\n  end type handle\nend module vendor_lib\n",
+    "src/app.f90": "module app\n  use mpi\n  use vendor_lib, only: handle\n  use iso_fortran_env, only: real64\n  implicit none\n  type(mpi_status) :: st\n  type(handle) :: hd\ncontains\n"
+                   "  subroutine start()\n    integer :: ierr\n    call mpi_init(ierr)\n  end subroutine start\nend module app\n",
+}
+
+
+def shadowed_external():
+    """a module of the project wins over an intrinsic / `extra_mods` module of the same name: USE imports the project module's entities"""
+    proj = realrun.build_project(SHADOW, display=["public", "private", "protected"], extra_mods={"vendor_lib": "https://vendor.example/lib"})
+    mods = {m.name: m for m in proj.modules}
+    app = mods["app"]
+    bad = []
+    uses = {getattr(u, "name", u): type(u).__name__ for u in app.uses}
+    for n in ("mpi", "vendor_lib"):
+        if uses.get(n) != "FortranModule":
+            bad.append(f"`use {n}` in app resolves to {uses.get(n)}, not to the project's module {n}")
+    if uses.get("iso_fortran_env") not in ("ExternalModule",):
+        bad.append(f"`use iso_fortran_env` resolves to {uses.get('iso_fortran_env')}")
+    st, hd = [v for v in app.variables if v.name == "st"][0], [v for v in app.variables if v.name == "hd"][0]
+    if isinstance(st.proto[0], str) or st.proto[0].parent is not mods["mpi"]:
+        bad.append("type(mpi_status) in app is not the type declared in the project's module mpi")
+    if isinstance(hd.proto[0], str) or hd.proto[0].parent is not mods["vendor_lib"]:
+        bad.append("type(handle) in app is not the type declared in the project's module vendor_lib")
+    start = app.subroutines[0]
+    if not start.calls or isinstance(start.calls[0], str) or start.calls[0].parent is not mods["mpi"]:
+        bad.append("call mpi_init in app::start does not resolve to the subroutine of the project's module mpi")
+    return bad
+
+
 def search():
+    bad = shadowed_external()
+    if bad:
+        return {"confirmed": True, "input": {"files": SHADOW, "settings": {"extra_mods": {"vendor_lib": "https://vendor.example/lib"}}}, "actual": bad,
+                "expected": "a USE statement names the project's own module when it has one of that name", "how": "bounded search on the real pipeline: project modules named like an intrinsic and an extra module"}
     from bounded import c07
     bad = c07.interface_body_uses()
     if bad:
